@@ -5,6 +5,8 @@ CONSTANTS
   Sizes = {0, 2}
   FlavourSets = {{"SHA1", "SHA256"}}
   Mode = "code"
+  Runs = 1
+  RememberIndex = FALSE
   Emit = FALSE
 PROPERTY Terminates
 CHECK_DEADLOCK FALSE
